@@ -7,11 +7,11 @@ from xh.rt import notrace, pick, reclimit
 from xh import langs, mb
 
 PROP = 'C02'
-T0 = ['A', 'G1', 'G2']
+T0 = ['Am', 'G1', 'G2']
 T1 = ['G1', 'G2', 'O']
 DV = [None, 0.0, 0.3, 1.0]
 NAMES = ['a', 'a:1', 'a:2', 'b']
-PTYPES = ('A', 'G1', 'G2')
+PTYPES = ('Am', 'G1', 'G2')
 
 
 def check_nodes(g, m, assets, spec, rel):
